@@ -163,6 +163,8 @@ func runC32(p *Prog, r *Result) {
 	r.Rule("R32a", "each goroutine started by package interp runs its statements on a Runner obtained from subshell(true) in the spawning function", 3)
 	r.Rule("R32b", "inside spawned functions the parent Runner is never stored to (directly or through a method that stores Runner fields)", 3)
 	r.Rule("R32c", "bgProc: *exit is stored before close(done) and nowhere after; every read of *exit follows a receive from the same done channel", 3)
+	r.Rule("R32d", "what a function starts on a sync.WaitGroup it waits for on every path to its exit", 1)
+	checkWaitGroupJoined(p, r, "R32d")
 	r.Rule("R27a", "writes to variable storage only through storage created in the same activation (shared with C27: such a write from a background copy is a data race)", 60)
 	r.Rule("R27b", "subshell(): every map/slice/pointer field of the new Runner is a fresh copy (shared with C27)", 8)
 
@@ -474,6 +476,8 @@ func runC32(p *Prog, r *Result) {
 }
 
 var c32Controls = []Control{
+	{Name: "pipeline-returns-before-wait", Rule: "R32d", WantKey: "wg.Go is waited for", File: "interp/runner.go",
+		Mutate: ctlReplaceAnywhere("\t\t\tr.stmt(ctx, cm.Y)\n\t\t\tpr.Close()\n\t\t\twg.Wait()\n", "\t\t\tr.stmt(ctx, cm.Y)\n\t\t\tpr.Close()\n\t\t\tif r.exit.fatalExit {\n\t\t\t\tr.stdin = oldIn\n\t\t\t\treturn\n\t\t\t}\n\t\t\twg.Wait()\n")},
 	{Name: "background-on-foreground-subshell", Rule: "R32a", WantKey: "stmt#go statement", File: "interp/runner.go",
 		Mutate: ctlReplace("Runner.stmt", "r2 := r.subshell(true)", "r2 := r.subshell(false)", 0)},
 	{Name: "pipeline-left-side-on-parent", Rule: "R32b", WantKey: "WaitGroup.Go/parent", File: "interp/runner.go",
@@ -481,7 +485,7 @@ var c32Controls = []Control{
 	{Name: "close-before-exit-stored", Rule: "R32c", WantKey: "close(bg.done)", File: "interp/runner.go",
 		Mutate: ctlReplace("Runner.stmt", "*bg.exit = r2.exit", "", 0)},
 	{Name: "wait-reads-exit-without-receive", Rule: "R32c", WantKey: "reads *bg.exit", File: "interp/builtin.go",
-		Mutate: ctlReplace("Runner.builtin", "<-bg.done", "_ = bg.done", 2)},
+		Mutate: ctlReplaceAnywhere("\t\t\tbg := r.bgProcs[pid-1]\n\t\t\tselect {\n\t\t\tcase <-bg.done:\n\t\t\tcase <-ctx.Done():\n\t\t\t\texit.fatal(ctx.Err())\n\t\t\t\treturn exit\n\t\t\t}\n", "\t\t\tbg := r.bgProcs[pid-1]\n")},
 	{Name: "dirstack-clipped", Rule: "R27b", WantKey: "field dirStack", File: "interp/api.go",
 		Mutate: ctlReplace("Runner.subshell", "r2.dirStack = append(r2.dirBootstrap[:0], r.dirStack...)", "r2.dirStack = slices.Clip(r.dirStack)", 0)},
 }
